@@ -186,8 +186,9 @@ def whole_node(ctx):
     pki.ca / pki.blocklist); complete nodes whose trust is withdrawn and given back while handshakes are pending or answered are
     recorded and every step is validated by TLC (shared recorder of C09/C10/C32)."""
     from tools.props import _hs
-    if not ctx.quick and not os.environ.get('VERIF_SKIP_MC'):
-        ctx.tlc('MC_HsManager', 'MC_HsManager_trust.cfg', timeout=3000, workers=8)
+    if not os.environ.get('VERIF_SKIP_MC'):
+        # SpecTrust: trust withdrawn / given back at any moment (quick: up to 2 messages, 0.66 M distinct states; thorough: 3, 12 M)
+        ctx.tlc('MC_HsManager', 'MC_HsManager_trust_q.cfg' if ctx.quick else 'MC_HsManager_trust.cfg', timeout=3000, workers=8)
     res, tf = _hs.record(ctx, traces=9 if ctx.quick else 40)
     ctx.traces += _hs.validate(ctx, tf, lambda ln, fl: ln.get('ev') == 'Retrust' or (ln.get('ev') == 'Deliver' and ln.get('kind') == 'handshake'),
                                strict_backoff=False)
